@@ -81,6 +81,14 @@ func Bytes(name string, n int) []byte {
 	return out
 }
 
+// ExitCode runs f and returns the status it passes to os.Exit (-1 if it
+// returns).  gosym only: natively os.Exit cannot be intercepted, C20
+// counterexamples are replayed by running the built binary instead.
+func ExitCode(f func()) int {
+	AssumeFailed = true
+	panic(assumeFailure{})
+}
+
 // OneOf reports whether b is one of the bytes of set (a single disjunction
 // term under gosym, no branching).
 func OneOf(b byte, set string) bool {
